@@ -99,6 +99,28 @@ PROPS = {
             "`&f64 == &f64` has no Verus specification: the float-float arm rests on the K harness c19_float_eq alone",
             "hidden element types in the bounded array harness are drawn from {!, int, any}",
         ]),
+    "C06": dict(
+        probes=["scope", "capture"],
+        explanation="kernel of C06 in three layers. (1) The two environment data structures themselves - Interpreter (run time) and "
+                    "LocalVariables (checker / folding pass), layered hash maps - are proved on their verbatim bodies against vstd's "
+                    "HashMap model: lookup returns the binding of the INNERMOST layer that has one (shadowing), insert binds in the "
+                    "innermost layer only and leaves the enclosing layers alone, create_layer / function_layer / from_params / new build "
+                    "exactly the layer the construct needs (a function layer is outside every loop and knows its FunctionInfo; a closure "
+                    "environment made by from_params has NO enclosing layer: only the parameters and the embedding interpreter). "
+                    "(2) WHO opens a layer: Block::exec / recreate, SetIfElse, MatchArm, function creation - each construct's body runs "
+                    "(is folded) in a fresh layer with exactly its binder bound, and nothing it binds is visible afterwards (state after == state before). "
+                    "(3) Capture by value at creation: AnonymousFunction::exec / FunctionDeclaration::exec fold the body against the parameters "
+                    "and the CURRENT interpreter (a declaration with its own name registered first: recursion by name from any call path) and the function "
+                    "value holds that folded body. What is NOT under contract: that lookup falls through to the enclosing layers (an "
+                    "un-annotated closure inside or_else), Function::exec_with_args (zip loop), module / import / for desugaring, and the agreement of "
+                    "the two environments over whole programs - bounded `scope` and `capture` probes.",
+        assumptions=COMMON + MACHINE + [
+            "vstd's HashMap model applies to Arc<str> keys (obeys_key_model::<Arc<str>>(): Arc<str> hashes and compares by content) and to the default hasher",
+            "std: Option::or_else runs its closure only when the option is None",
+            "lookup in the enclosing layers (the closure `|| self.lower_layer?.get_variable(name)`) has no callable specification: only the innermost-layer case is proved",
+            "impl From<Params> for LocalVariableMap (iterator chain) is uninterpreted",
+            "Function::exec_with_args (fresh interpreter holding the arguments and the function's own name), DestructTuple / Struct / module / import / `for` desugaring: not under contract",
+        ]),
     "C11": dict(
         probes=["iter", "capture"],
         explanation="kernel of C11 on the three Rust-level consumers of iterators: collect::exec (`it $]`), "
@@ -207,4 +229,6 @@ def probe_family_of(prop, oid):
         return "cells"
     if prop == "C11":
         return "iter"
+    if prop == "C06":
+        return "scope"
     return None
